@@ -29,8 +29,35 @@ CASES = [  # (sub ordering, final sync, expected verdict for two threads doing r
 ]
 
 
+class _V:
+    def __init__(s, variant): s.variant = variant
+
+
+def cas_get_mut_template(succ_ord, weak):
+    """get_mut whose uniqueness test is compare_exchange(1, 1, succ_ord, Relaxed): two mutually exclusive
+    events picked by the per-instance choice k (encoding of mirsym's compare-exchange)."""
+    k, rs, rf = BitVec("k9", 64), BitVec("r8", 64), BitVec("r9", 64)
+    ok = {"kind": "RMW", "loc": ("cnt", "a0"), "ord": succ_ord, "rval": rs, "wval": BV(1), "op": "cas", "fresh": [k]}
+    fail = {"kind": "R", "loc": ("cnt", "a0"), "ord": "rlx", "rval": rf, "op": "cas-fail", "fresh": [k]}
+    return [{"pc": [k == 1, rs == 1], "events": [ok], "result": ("ret", _V("Some")), "fn": "litmus"},
+            {"pc": [k == 0] + ([] if weak else [rf != 1]), "events": [fail], "result": ("ret", _V("None")), "fn": "litmus"}]
+
+
+CAS_CASES = [("acq", False, "holds"), ("acq", True, "holds"), ("rlx", False, "violation"), ("acqrel", False, "holds")]
+
+
 def run():
     bad = []
+    for succ_ord, weak, want in CAS_CASES:
+        T = {"drop": drop_template("rel", "acq-load"), "get_mut": cas_get_mut_template(succ_ord, weak)}
+        sc = rc11.Scenario(T, [["get_mut_write", "drop"], ["read", "drop"]], {}, f"litmus cas {succ_ord}/{weak}")
+        r = rc11.decide(sc, 60000)
+        if r["verdict"] != want:
+            bad.append(f"cas({succ_ord},weak={weak}): expected {want}, encoder says {r['verdict']}")
+        if r["verdict"] == "violation":
+            ok, why = rc11.check_witness(r["witness"])
+            if not ok:
+                bad.append(f"cas({succ_ord},weak={weak}): witness rejected by the independent checker: {why}")
     for sub_ord, sync, want in CASES:
         T = {"drop": drop_template(sub_ord, sync)}
         sc = rc11.Scenario(T, [["read", "drop"], ["read", "drop"]], {}, f"litmus {sub_ord}/{sync}")
